@@ -8,9 +8,18 @@ Decided by: Barril/Props/C08.lean over the model Barril/Model/Cmp.lean:
     value), inside an explicit model of CPython's `do_richcompare` (reflected method first for a proper
     subclass, NotImplemented, identity fallback);
   * `fractionOrder` = `Fraction.__lt__` + `functools.total_ordering`, `fractionOfNumber` = `Fraction(number)`.
+  * `Session` = a pool of objects with identities and the `Quantity._hash` memo; `StirOp` = what is done with pooled
+    objects before they are compared (hashing, + - * /, comparisons, conversions, copies, pickling).  Theorems
+    `stir_keeps_pool`, `stir_invisible_eq/_hash`, `stirred_*`: the verdicts of `==`, `!=`, `hash` after ANY history
+    are those of the descriptors the objects were created with.
 Tie: (a) order of Scalars and FractionScalars on unit pairs of seeded quantity types, (b) `==`, `!=`,
 `hash` on ALL ordered pairs of a pool of objects of every class, (c) Fraction order against numbers/builtins and
-the decimal-shifting loop of `Fraction(number)`.
+the decimal-shifting loop of `Fraction(number)`, (d) the stir: a second pool (derived quantities holding one
+quantity type two or three times in different units and categories, their one-unit look-alikes, value objects on
+them) is hashed / used as dict keys, then used as left and right operands of + - * / (same, other quantities, numbers;
+failures are fine), compared, converted, printed, rebuilt, copied and pickled; then `==`, `!=`, `hash` on all
+ordered pairs, the model answering from the descriptors taken at creation, (e) the explicit call of the abstract
+base's `__hash__`.
 
 Known limit of the CODE (not of the check): `ConvertFractionValue` stores the converted numerator through
 `Fraction(number)`, which keeps it only up to SMALL=1e-8; `fscalar_order_iff_base_partial` carries that hypothesis
@@ -37,7 +46,15 @@ RULE = ("(a0) cross-type order: every ordered pair of operands {Scalar, Fraction
         "containers of equal and different lengths; FixedArray vs Array; Curve; UnitSystem; Fraction/FractionValue; "
         "quantities and value objects whose quantity carries a caption absent / 'x' / 'y' on a KNOWN unit, simple and derived) plus "
         "None, str, int, float, tuple, list: ==, !=, hash; (c) Fraction <,<=,>,>= against Fractions, numbers and builtins on "
-        "both sides, and Fraction(number).  distinct = distinct model line; non-trivial = two different objects at least "
+        "both sides, and Fraction(number); (d) stir: a pool on 'length' and seeded quantity types with >=2 categories and >=2 "
+        "units: per type 14 quantities (the type twice/three times in different units and categories, swapped, a ratio, "
+        "squared, through CreateDerived, the constructor, with a caption, one-unit look-alikes, simple ones) with "
+        "Scalars (two values), Arrays (list/tuple/ndarray), FixedArrays, FractionScalars, a Curve on them, plus numbers, "
+        "None, str, FractionValue, Fraction; history: hash + dict key of every object, then all ordered pairs of a type's "
+        "objects (and numbers) under + - * /, seeded cross-type pairs, ==/!=/</>=, GetValue/ConvertScalarValue/"
+        "CreateCopy(unit), str/repr, every recipe built again, pickle round trip, deepcopy/CreateCopy, kept results; "
+        "then ==, !=, hash on ALL ordered pairs of the grown pool; (e) AbstractValueWithQuantityObject.__hash__(o) for "
+        "every pooled object.  distinct = distinct model line; non-trivial = two different objects at least "
         "one of which is a barril object / two different units with a successful comparison")
 EXHAUSTIVE = {"quick": False, "thorough": False}
 ASSUMPTIONS = [
@@ -49,6 +66,10 @@ ASSUMPTIONS = [
     "FractionScalar order theorems assume the converted numerator passes that loop unchanged (FSc.NumeratorKept); "
     "without it the code itself is incoherent (theorem fscalar_order_counterexample)",
     "int and float are one model class `num` (their mixed comparisons are exact in CPython)",
+    "stir: object identities (id(o), id(o._quantity)) are observed on the real objects and given to the model; the "
+    "descriptor of a pooled object is read from the real object when it is created (before the history); that + - * /, "
+    "conversions, copies and pickling leave the operands' descriptors alone is the model's statement (StirOp, "
+    "stir_keeps_pool), tied to the code by the correspondence only",
 ]
 CLASS_FLUSH = "fractionscalar-converted-numerator-altered-by-Fraction(number)"
 OPS = ("lt", "le", "gt", "ge")
@@ -301,7 +322,30 @@ def _cls(term):
 # its verdicts do not depend on the history (theorems stir_*), so any effect of the history is a disagreement.
 ERRCH = {"units": "u", "type": "t", "value": "v", "readonly": "r", "key": "k", "index": "i", "assertion": "a",
          "runtime": "n", "other": "o", "validation": "d"}
-STIR_BLOCK = 2500
+
+
+def _rle(codes):
+    """'TFhh1TFhh1FThh0' -> 'TFhh1*2,FThh0' (five characters per pair: ==, !=, hash a, hash b, hashes equal)"""
+    out, last, n = [], None, 0
+    for k in range(0, len(codes), 5):
+        g = codes[k:k + 5]
+        if g == last:
+            n += 1
+        else:
+            if last is not None:
+                out.append(last if n == 1 else "%s*%d" % (last, n))
+            last, n = g, 1
+    if last is not None:
+        out.append(last if n == 1 else "%s*%d" % (last, n))
+    return ",".join(out)
+
+
+def _unrle(text):
+    out = []
+    for g in text.split(",") if text else []:
+        code, _, n = g.partition("*")
+        out.append(code * (int(n) if n else 1))
+    return "".join(out)
 
 
 def _q_of(r):
@@ -633,8 +677,9 @@ def _stir_cases(ctx, name):
     s = _stir_state(ctx, name)
     order = s["order"]
     pairs = [(a, b) for a in order for b in order]
-    for k in range(0, len(pairs), STIR_BLOCK):
-        blk = pairs[k:k + STIR_BLOCK]
+    block = max(2500, len(pairs) // 24)
+    for k in range(0, len(pairs), block):
+        blk = pairs[k:k + block]
         yield dict(op="stir", small=ctx.small, pool=s["pool"], script=s["script"],
                    queries=[[s["index"][a], s["index"][b]] for a, b in blk],
                    _t=dict(plan=name, pairs=[[a, b] for a, b in blk]))
@@ -663,7 +708,7 @@ def _impl_stir(c, ctx):
             now = dict(c="?", why=repr(e)[:80])
         if now != desc[a]:
             changed.append(a)
-    return dict(codes="".join(_pair_code(objs[a], objs[b]) for a, b in t["pairs"]), changed=changed)
+    return dict(codes=_rle("".join(_pair_code(objs[a], objs[b]) for a, b in t["pairs"])), changed=changed)
 
 
 def _resolve_plan(ctx, t):
@@ -702,10 +747,13 @@ def _oracle_stir(c, ctx):
             f = _eq_clauses(objs[a], objs[b])
         if f:
             n = len(plan["steps"])
-            return dict(f, pair=[a, b], a=repr(objs[a])[:120], b=repr(objs[b])[:120], a_is=_describe(plan, a),
-                        b_is=_describe(plan, b),
-                        after=[_show_step(st) for st in plan["steps"]] if n <= 40 else
-                        "the %d operations of the plan (hashing, + - * /, comparisons, conversions, copies)" % n)
+            out = dict(f, pair=[a, b], a=repr(objs[a])[:120], b=repr(objs[b])[:120], a_is=_describe(plan, a),
+                       b_is=_describe(plan, b),
+                       after=[_show_step(st) for st in plan["steps"]] if n <= 40 else
+                       "the %d operations of the plan (hashing, + - * /, comparisons, conversions, copies)" % n)
+            if len(plan["recipes"]) <= 12:
+                out["objects"] = ["%s = %s" % (ref, _show_recipe(r)) for ref, r in plan["recipes"]]
+            return out
     return None
 
 
@@ -913,7 +961,7 @@ def _basehash_cases(ctx, which):
         yield dict(op="basehash", a=term, _t=dict(pool=which, i=i))
 
 
-STIR_PLAN = {"quick": "stir/1", "thorough": "stir/5"}
+STIR_PLAN = {"quick": "stir/1", "thorough": "stir/3"}
 FR_OPERANDS = [None, "a", (), 1, 0, 2, -1, 0.5, 0.25, 1.5, 0.1, 0.333, 2.0, 1e-9, 123.456]
 
 
@@ -1297,7 +1345,7 @@ def _agree_stir(c, io, m, ctx):
         return ("the descriptors of the pooled objects %s are not the ones they were created with: an operation of "
                 "the history altered them (the model's operations leave them as they are: stir_keeps_pool)"
                 % (io["changed"][:6],))
-    real, mod = io["codes"], m["codes"]
+    real, mod = _unrle(io["codes"]), _unrle(m["codes"])
     if len(real) != 5 * len(pairs) or len(mod) != 5 * len(pairs):
         return "answers for %d pairs expected: impl %d model %d characters" % (len(pairs), len(real), len(mod))
     for k, (a, b) in enumerate(pairs):
@@ -1547,7 +1595,7 @@ def search(ctx):
     quick = ctx.tier == "quick"
     yield from _xorder_cases(ctx, "search", 10 if quick else 40)
     yield from _eq_cases(ctx, "wide")
-    yield from _stir_cases(ctx, "stir/1" if quick else "stir/5")
+    yield from _stir_cases(ctx, STIR_PLAN[ctx.tier])
     yield from _frac_cases(ctx, "search", 10)
     late = []
     for c in _order_cases(ctx, "search", 40 if quick else 200, 3, all_types=not quick):
